@@ -32,6 +32,12 @@ GARBAGE = ["#12345g", "#12g", "#-12345", "#-12", "#+12345", "# 12345", "#1_2345"
            "0x10", "rgb(1,2,3)", "#fff0", "#ffffff0", "g100%", "50%", "%", "h%d", "{}", "None", "True"]
 
 
+NOT_NUMBERS = ["#+12", "#-12", "#1_2", "# 12", "#+1", "#-1", "#+12345", "#-12345", "#1_2345", "#12_345", "#1234_5", "# 12345", "#+f", "#f_f",
+               "g+5", "g-5", "g1_0", "g 5", "g+10", "g+99", "g#+5", "g#-5", "g#1_", "g#_1", "g# 5", "h+5", "h-5", "h1_0", "h 5", "h+25",
+               "h2_5", "h\u0663", "g\u0663", "h\uff15", "g\uff15", "h1\u0663", "g#\uff11\uff12", "#\uff11\uff12\uff13",
+               "#\u0661\u0662\u0663", "#\uff11\uff12\uff13\uff14\uff15\uff16", "#12\uff13", "#1234\uff15\uff16", "g#1\uff12", "h25\uff15"]
+
+
 def D(k, a=0, b=0, c=0):
     return {"k": k, "a": a, "b": b, "c": c}
 
@@ -334,6 +340,15 @@ def build_events(chk, d, quick):
             ev.append(spec_event(d, [D("word")], st, D("default"), render_fg([w], st, [rng.randint(0, len(st))]), "default", cat="unknown_name"))
     for s in STYLES:
         ev.append(spec_event(d, [], [], D("word"), "", s, cat="unknown_name"))
+    # numbers that only a lenient integer parser would read: a sign, an underscore, a blank or a non-ASCII digit is in none of the
+    # documented forms ('h0'..'h255', 'g0'..'g100', 'g#00'..'g#ff', '#000'..'#fff', '#000000'..'#ffffff'), so these are names of no colour
+    for i, w in enumerate(NOT_NUMBERS):
+        if i % 2:
+            p = partner(rng, d)
+            ev.append(spec_event(d, [p], [], D("word"), render(p), w, cat="not_a_number"))
+        else:
+            st = some_styles(rng)
+            ev.append(spec_event(d, [D("word")], st, D("default"), render_fg([w], st, [rng.randint(0, len(st))]), "default", cat="not_a_number"))
     for i in range(1, 7):
         ev.append(spec_event(d, [], [i, i], D("none"), render_fg([], [i, i], []), "", cat="dup_setting"))
     for _ in range(80 if quick else 2000):
@@ -601,7 +616,8 @@ def run(chk):
                        "duplicated settings, two colours, colours beyond the depth; mutated / junk text; pairs of specifications for ==/hash; "
                        "non-trivial = distinct accepted (depth, fg text, bg text) with a colour or a setting")
     need = ["256.accepted.fg.rgb3", "256.accepted.bg.rgb3", "88.accepted.fg.gray", "88.accepted.bg.grayhex", "16777216.accepted.fg.rgb6",
-            "256.accepted.fg.rgb6", "16.accepted.fg.basic", "1.accepted.with_settings", "256.unknown_name.AttrSpecError",
+            "256.accepted.fg.rgb6", "16.accepted.fg.basic", "1.accepted.with_settings", "256.unknown_name.AttrSpecError", "256.not_a_number.AttrSpecError", "88.not_a_number.AttrSpecError",
+            "16777216.not_a_number.AttrSpecError",
             "256.dup_setting.AttrSpecError", "256.two_colours.AttrSpecError", "16.beyond_depth.AttrSpecError", "1.beyond_depth.AttrSpecError",
             "88.beyond_depth.AttrSpecError", "256.malformed.AttrSpecError", "256.malformed.accepted", "256.pair.equal", "256.pair.unequal",
             "16777216.pair.equal"]
